@@ -226,5 +226,14 @@ class DLTypeContext:
                     actual=actual_shape[dim_idx],
                 )
 
-            if dimension_expression.identifier not in self.tensor_shape_map:
-                self.tensor_shape_map[dimension_expression.identifier] = actual_shape[dim_idx]
+            # a named expression must also agree with an earlier binding of its name
+            bound_result = self.tensor_shape_map.setdefault(
+                dimension_expression.identifier, actual_shape[dim_idx]
+            )
+            if bound_result != actual_shape[dim_idx]:
+                raise _errors.DLTypeShapeError(
+                    tensor_name=tensor_arg_name,
+                    index=dim_idx,
+                    expected_shape=bound_result,
+                    actual=actual_shape[dim_idx],
+                )
